@@ -209,6 +209,16 @@ var (
 	setupVisits uint32
 )
 
+// ResetRun puts the runtime back into its start-of-process state (a serving
+// worker executes many scenarios, one after the other).
+func ResetRun() {
+	Steps = 0
+	cur = nil
+	setupVisits = 0
+	PoolGets, PoolDrops = 0, 0
+	PoolChoice = func(n int) int { return n - 1 }
+}
+
 // Configure installs the map-order fault for this process. nSites is the
 // number of map sites reported by the instrumenter (ids are 1..nSites).
 func Configure(p PermSpec, nSites int) {
